@@ -67,3 +67,31 @@ claim("C20", "Lean 4 proofs of locality (frame), finality of classical verdicts 
       "log must stay inside the source's sub-graph (the hypothesis of C20_local), snapshots outside must be identical, restricted results compared "
       "with the following full fixpoint, early query verdicts with converge=True runs; all runs replayed in the model.",
       NOTE_COMMON + " Propositional theories; quantified first-order theories are exercised through the first-order correspondence streams only.", "DESIGN.md §6 C20")
+claim("C14", "Lean 4 proofs about the table model (reads of absent groundings, row creation at world defaults, axiom invariant) + differential correspondence of store and first-order programs",
+      "Theorems C14_get_missing / C14_query_pure / C14_query_unknown (an absent grounding reads as the world default and reading writes nothing), "
+      "C14_addg_new_row / _keeps / _keys / _only_world / _read_unchanged and C14_groundings_only_world / _read_unchanged (every row a join, propagation "
+      "or downward step introduces is a world-default row of its own formula, in leaf and working bounds, and creating it changes what no grounding "
+      "reads), C14_axiom_start / C14_axiom_stays / C14_axiom_invariant / C14_closed_stays (TRUE stays TRUE or becomes crossed under every write). "
+      "Tied to /repo by store programs under every world (construction, add_knowledge, reset_world) with queries of absent groundings (a created row "
+      "is flagged), and by first-order programs with CLOSED/AXIOM formulae whose never-asserted rows must stay inside the default after every call; "
+      "all tables compared with the model.",
+      NOTE_COMMON, "DESIGN.md §6 C14")
+claim("C15", "Lean 4 refinement of the table to a finite map with explicit validation predicate + differential correspondence incl. a malformed-input stream",
+      "Theorems C15_get_after_add / _add_other_untouched / _add_overwrites / _add_keys / _leaf_after_add (add_data = map update for exactly the given "
+      "keys, later overwrites earlier), C15_inference_keeps_leaves / C15_reset_after_inference / C15_reset_returns_assertion (inference never touches "
+      "leaves; reset_bounds returns exactly to the data after ANY inference writes), C15_enc_* (Fact, bool, float, pair encodings), "
+      "C15_toBounds_ok_iff / C15_accept_iff / C15_reject / C15_reject_kind / C15_reject_kind_entry (accepted iff the explicit Valid predicate holds; "
+      "every entry is validated before the first write, an error carries no table; error classes), C15_checked_spec (accepted dict: last entry wins, "
+      "others untouched). Tied to /repo by random add_data/flush/reset_bounds/get_data/state/reset_world/infer sequences over propositional-like, "
+      "predicate, connective, negation and quantifier formulae with all encodings and a malformed stream (error class and unchanged table compared "
+      "with the model and judged by a model-independent oracle).",
+      NOTE_COMMON + " The model follows the repaired code (floats are range-checked; add_data on a quantifier is kept). add_data on a quantifier WITH "
+      "free variables is outside the store stream (per-group neurons; see DESIGN.md).", "DESIGN.md §6 C15")
+claim("C16", "Lean 4 proof of history independence of the session model + differential reset/rerun correspondence (propositional and first-order)",
+      "Theorems C16_leaves_invariant / C16_reset_restores / C16_rerun_equal / C16_second_run: in the session model (asserted data + working bounds) "
+      "no history of inference calls, observations and resets changes the data, reset_bounds() restores it exactly, and any inference sequence after a "
+      "reset yields the bounds of a freshly built model. Tied to /repo: infer() on the fresh model, arbitrary inference / printing / state queries / "
+      "resets, then reset_bounds()+infer(): both dumps identical and equal to the history-free Lean model; first-order and quantified programs likewise "
+      "against the first-order model (sweep counts deliberately not compared).",
+      NOTE_COMMON + " Known findings D11 (contradictory first-order data) and D14 (fully_grounded quantifier whose instance set grows) are listed in "
+      "known_findings.json and replayed on every run; the first-order clause rests on correspondence plus the rerun oracle, not on a theorem.", "DESIGN.md §6 C16")
